@@ -1193,6 +1193,10 @@ func VMValueFromJSON
 func (*VMValue).ToJSONRaw
   props C09 C10
   nilrecv
+  // containers inside a dict or inside a computed value's attributes are serialised with the SAME path set: a reference
+  // cycle through a dict is found and reported (C09: an error, never an endless recursion)
+  ghost at precall 1 toJSONRaw: ghostAssert(save != nil && sameMap(arg0, save))
+  ghost at precall 2 toJSONRaw: ghostAssert(save != nil && sameMap(arg0, save))
   ensures [C09] v == nil ==> result1 != nil
   ensures [C09] result1 == nil && (v.TypeId == VMTypeInt || v.TypeId == VMTypeFloat || v.TypeId == VMTypeString || v.TypeId == VMTypeNull || v.TypeId == VMTypeComputedValue || v.TypeId == VMTypeFunction || v.TypeId == VMTypeNativeFunction || v.TypeId == VMTypeNativeObject) ==> jsonInt(result0, "t") == IntType(v.TypeId)
   ensures [C09] result1 == nil && v.TypeId == VMTypeInt ==> jsonInt(result0, "v") == v.Value.(IntType)
@@ -2216,6 +2220,13 @@ func (*ValueMap).Range
 // ToJSON: the function handed to Range writes exactly one "key":value member for every pair it is given, or stops
 // with an error — no pair is skipped (C09).  Range (above) hands it every live pair once.
 func (*ValueMap).ToJSON
+  props C12 C09
+  holds vmWF(m)
+  ensures forallkey k: vmHas(m, k) == old(vmHas(m, k)) && (vmHas(m, k) ==> vmGet(m, k) == old(vmGet(m, k)))
+
+// toJSONRaw: ToJSON with the caller's path set (the containers being serialised right now), so that a cycle through a
+// dict is an error instead of an endless recursion.
+func (*ValueMap).toJSONRaw
   props C12 C09
   holds vmWF(m)
   ensures forallkey k: vmHas(m, k) == old(vmHas(m, k)) && (vmHas(m, k) ==> vmGet(m, k) == old(vmGet(m, k)))
